@@ -150,11 +150,21 @@ func (f *Font) makePrivateDict(idx int, defaultWidth, nominalWidth float64) cffD
 	}
 
 	if defaultWidth != 0 {
-		privateDict[opDefaultWidthX] = []interface{}{int32(defaultWidth)}
+		privateDict[opDefaultWidthX] = []interface{}{widthOperand(defaultWidth)}
 	}
 	if nominalWidth != 0 {
-		privateDict[opNominalWidthX] = []interface{}{int32(nominalWidth)}
+		privateDict[opNominalWidthX] = []interface{}{widthOperand(nominalWidth)}
 	}
 
 	return privateDict
+}
+
+// widthOperand returns the DICT operand for a default/nominal width.
+// Fractional widths must not be truncated, since the charstrings encode
+// the glyph widths relative to the exact value.
+func widthOperand(w float64) interface{} {
+	if w == math.Trunc(w) && math.Abs(w) < 1<<31 {
+		return int32(w)
+	}
+	return w
 }
